@@ -6,11 +6,13 @@
 (* that change the state are weighted so that behaviours make progress.        *)
 EXTENDS Payments, Json, IOUtils
 
-CONSTANTS SimName,            \* "sim2" (two channels) or "sim3" (three)
+CONSTANTS SimName,            \* "sim2" (two channels), "sim3" (three), "sim2v" (two channels and a payment
+                              \* velocity limit of 2 units: approvals are declined once the window is full)
           Fee, Pct, RevokeValidates, Depth
 VARIABLES s, hist, w
 
-K == [fee |-> Fee, pct |-> Pct, revokeValidates |-> RevokeValidates]
+Vlim == IF SimName = "sim2v" THEN 2 ELSE 0
+K == [fee |-> Fee, pct |-> Pct, revokeValidates |-> RevokeValidates, vlim |-> Vlim]
 ChanSet == IF SimName = "sim3" THEN {"c1", "c2", "c3"} ELSE {"c1", "c2"}
 HashSet == {"h1", "h2"}
 HT == HTLCs(HashSet, 2)
@@ -20,6 +22,7 @@ Contents == {<<>>} \cup {<<x>> : x \in HT} \cup {<<p[1], p[2]>> : p \in {q \in H
 NodeReqs == {[op |-> "AddInvoice", h |-> h, a |-> a] : h \in HashSet, a \in 0..3}
         \cup {[op |-> "AddKeysend", h |-> h, a |-> a] : h \in HashSet, a \in 0..2}
         \cup {[op |-> "DeclineInvoice", h |-> h, a |-> 2] : h \in HashSet}
+        \cup {[op |-> "ExpiredInvoice", h |-> h, a |-> 1] : h \in HashSet}
         \cup {[op |-> "IssueInvoice", h |-> h, a |-> a] : h \in HashSet, a \in 1..2}
         \cup {[op |-> "Fulfill", h |-> h] : h \in HashSet}
         \cup {[op |-> "Tick"], [op |-> "Heartbeat"], [op |-> "Restart"]}
@@ -40,5 +43,5 @@ Next == /\ Len(hist) < Depth
 Spec == Init /\ [][Next]_<<s, hist, w>>
 
 Emit == Len(hist) = Depth =>
-          PrintT(<<"SIM", ToJson([chans |-> ChanSet, hashes |-> HashSet, reqs |-> hist])>>)
+          PrintT(<<"SIM", ToJson([chans |-> ChanSet, hashes |-> HashSet, reqs |-> hist, vlim |-> Vlim])>>)
 =============================================================================
